@@ -79,6 +79,10 @@ def main(ctx: Ctx) -> int:
                 cases.append(("leeds", rec(["G" + gas], [gas], code, a), ty, "G" + gas, "G" + gas, "", None))
     cases.append(("leeds", rec(["GRAIN0", "e-"], ["GRAIN-"], 20, 1.0), 221, "e-", None, "", None))
     cases.append(("leeds", rec(["C+", "GRAIN-"], ["C", "GRAIN0"], 6, 1.5), 220, "C+", None, "", None))
+    # the same two classes with the grain written FIRST / the electron written first, and a heavier ion
+    cases.append(("leeds", rec(["GRAIN-", "C+"], ["C", "GRAIN0"], 6, 1.5), 220, "C+", None, "", None))
+    cases.append(("leeds", rec(["GRAIN-", "HCO+"], ["CO", "H", "GRAIN0"], 6, 2.5), 220, "HCO+", None, "", None))
+    cases.append(("leeds", rec(["e-", "GRAIN0"], ["GRAIN-"], 20, 1.0), 221, "e-", None, "", None))
     for r1, r2 in (("GH", "GH"), ("GH", "GCO"), ("GCO", "GH"), ("GCO", "GO"), ("GH2", "GO"), ("GO", "GH2")):
         for code, ty in ((13, 300), (14, 204)):
             cases.append(("leeds", rec([r1, r2], ["G" + "X"] if False else ["GCO"], code, rng.choice([0.0, 500.0, 1000.0, 2.5])), ty, r1, None, "", (r1, r2)))
@@ -169,9 +173,28 @@ def main(ctx: Ctx) -> int:
                 t2.update({"tid": len(traces) + 1, "obs": obs2, "line": line + f"   [network switched from {other}]"})
                 traces.append(t2)
     # binding-energy lookup order on ONE species object across reads and updates (values in K, integers)
+    import re as _re
+    from common import render as _render
+    import creader as _creader
+
+    def emitted_constant(name: str, k_: int) -> int:
+        """eb_<alias> as the generated naunet_constants.cpp defines it for a network read NOW (thousandths of a kelvin; -1 = absent)"""
+        f2 = d / f"ebnet_{k_}.ucl"
+        f2.write_text("\n".join(encoders.uclchem(x) for x in (rec([name[1:]], [name], "FREEZE"), rec([name], [name[1:]], "THERM"))) + "\n")
+        out = ctx.scratch / "ebconst" / str(k_)
+        try:
+            net3 = Network(filelist=str(f2), fileformats="uclchem", grain_model="hh93")
+            _render(net3, "cvode", "dense", out, templates=["src/naunet_constants.cpp.j2"])
+            m_ = dict(_re.findall(r"\beb_(\w+)\s*=\s*([^;]+);", _creader.strip_comments((out / "src" / "naunet_constants.cpp").read_text())))
+            return int(round(float(m_["G" + name[1:] + "I"]) * 1000))
+        except Exception:   # noqa
+            return -1
+    nconst = 0
     for name in ("#CO", "#H2O", "#CH4"):
         for seq in (["read", ("user", 1300), "read", ("explicit", 855), "read", ("user", 1400), "read"], ["read", "read", ("user", 999), "read", "read"],
-                    [("user", 1200), "read", ("user", 1250), "read", ("explicit", 700), "read"]):
+                    [("user", 1200), "read", ("user", 1250), "read", ("explicit", 700), "read"],
+                    # values with more significant digits than any table entry has, and the constant the generated code gets for them
+                    ["emitted", ("user", 1234.567), "read", "emitted", ("user", 5773.25), "emitted", ("user", 98765.432), "read", "emitted"]):
             Species.reset()
             chemistrydata.user_binding_energy.clear()
             sp = Species(name)
@@ -179,18 +202,22 @@ def main(ctx: Ctx) -> int:
             for op in seq:
                 if op == "read":
                     try:
-                        ev.append({"op": "read", "value": int(round(sp.binding_energy))})
+                        ev.append({"op": "read", "value": int(round(sp.binding_energy * 1000))})
                     except Exception:   # noqa
                         ev.append({"op": "read", "value": -1})
+                elif op == "emitted":
+                    nconst += 1
+                    ev.append({"op": "emitted", "value": emitted_constant(name, nconst)})
                 elif op[0] == "user":
                     chemistrydata.update_binding_energy({name: float(op[1])})
-                    ev.append({"op": "user", "value": op[1]})
+                    ev.append({"op": "user", "value": int(round(op[1] * 1000))})
                 else:
                     sp.binding_energy = float(op[1])
-                    ev.append({"op": "explicit", "value": op[1]})
+                    ev.append({"op": "explicit", "value": int(round(op[1] * 1000))})
             t0 = dict(traces[0])
-            t0.update({"tid": len(traces) + 1, "kind": "eb", "ev": ev, "table": int(round(eb12[name[1:]])), "line": f"{name}: {seq}", "obs": dict(traces[0]["obs"], expr="")})
+            t0.update({"tid": len(traces) + 1, "kind": "eb", "ev": ev, "table": int(round(eb12[name[1:]] * 1000)), "line": f"{name}: {seq}", "obs": dict(traces[0]["obs"], expr="")})
             traces.append(t0)
+    cov["emitted_binding_energy_constants_checked"] = nconst
     Species.reset()
     chemistrydata.user_binding_energy.clear()
     chemistrydata.user_photon_yield.clear()
@@ -203,6 +230,10 @@ def main(ctx: Ctx) -> int:
     for tid, rj in sorted(v["rejected"].items()):
         clause = (rj["clauses"] or ["NoEnabledAction"])[0]
         tr = by[tid]
+        if tr["kind"] == "eb":
+            ctx.violation(f"C11|{clause}|binding-energy lookup", f"binding energy of {tr['line']}: events {tr['ev']} (thousandths of a kelvin; table value "
+                          f"{tr['table']}): {rj['clauses']}", {"sequence": tr["line"], "events": tr["ev"], "table": tr["table"], "clauses": rj["clauses"]})
+            continue
         ctx.violation(f"C11|{clause}|model={tr['model']},type={tr['ty']},fmt={tr['fmt']},group={tr['c']['g'] or 0}",
                       f"{tr['model']}: line {tr['line']!r} -> {tr['obs']['expr'][:200]!r} {tr['obs']['err']}: {rj['clauses']}",
                       {"line": tr["line"], "model": tr["model"], "type": tr["ty"], "case": tr["c"], "observed": tr["obs"], "clauses": rj["clauses"]})
